@@ -11,7 +11,7 @@ LEAN_MODULES = ["Properties.C02", "Properties.Core", "Properties.CoreWrap", "Pro
 RULE = (
     "seeded contexts that are conforming by construction (0 perturbations in 3 of 4 cases), ranks 0-5, zero-sized axes, zero-length groups, "
     "tuples of length 1-3, optionals, providers; each presented (a) directly to DLTypeContext and (b) as a call of a generated dltyped "
-    "function in positional / keyword / mixed style (also with keyword-only and positional-only hinted parameters), with defaulted extra parameters of hashable and unhashable types; the body counts its "
+    "function in positional / keyword / mixed style (also with keyword-only and positional-only hinted parameters), with defaulted extra parameters of hashable and unhashable types; one annotation object behind a plain hint and a tuple hint (length one included) of the same call; the body counts its "
     "calls and records the identity of its arguments and of its result. non-trivial = distinct line judged 'conforms, ordered' by the oracle"
 )
 
@@ -40,6 +40,15 @@ def cases(tier, rng, run):
                 items[1] = "func:pos"
             line = "\t".join(items + ([extra] if extra else []))
         out.append(Case(line, "call", {"ctx": c}))
+    # a type alias (ONE annotation object) used as a plain hint and inside a tuple hint of the same call, in both orders, the tuple
+    # of length one included: caches keyed by the annotation must not confuse `T` with `tuple[T]`
+    for spec, v in (("FloatTensor,0,a b", "T,0:float32,2.3"), ("IntTensor,0,*g 2", "T,1:int64,4.5.2"), ("TensorTypeBase,0,<None>", "T,2:bool,")):
+        for style in ("pos", "kw"):
+            for k in (1, 2):
+                tup = f"T|{';'.join([spec] * k)}|U:{';'.join([v] * k)}"
+                for items in ([f"P|x|S|{spec}|{v}", f"R|{tup}"], [f"P|t|{tup}", f"R|S|{spec}|{v}"], [f"P|x|S|{spec}|{v}", f"P|t|{tup}"], [f"P|t|{tup}", f"P|x|S|{spec}|{v}"],
+                              [f"P|t|{tup}", f"R|{tup}"], [f"P|x|S|{spec}|{v}", f"P|t|{tup}", f"R|S|{spec}|{v}"]):
+                    out.append(Case("\t".join(["CALL", f"func:{style}", "-", "", *items, "AL"]), "alias"))
     return out
 
 
